@@ -51,6 +51,11 @@ func (si *SearchIndex) Search(targetKey []byte, readKey func(offset int64) ([]by
 	// BinarySearch returns the _greater_ index when we don't find an exact match
 	// so subtract one here to start searching from the earlier index.
 	if !isExact {
+		if foundIndex == 0 {
+			// The target sorts before the first key of the table (reachable when
+			// the bloom filter gives a false positive): nothing to scan.
+			return 0, 0, nil
+		}
 		foundIndex--
 	}
 
